@@ -219,6 +219,48 @@ def run(ctx):
     n4 = L.check_special_members(ctx, "C06.R4", fb, r"^babylon::(ExclusiveMonotonicBufferResource|SharedMonotonicBufferResource|SwissMemoryResource)$")
     ctx.floor("C06.R4", n4, 4, "user-provided move members of the memory resources")
 
+    # ---------------------------------------------------------------- R4b blocks travel with the allocators that issued them
+    def this_field(d):
+        d = strip_cast(d)
+        return d.get("n") if isinstance(d, dict) and d.get("k") == "f" and isinstance(strip_cast(d.get("b")), dict) and \
+            strip_cast(d["b"]).get("k") == "this" else None
+
+    def src_field(d):
+        d = strip_cast(d)
+        return d.get("n") if isinstance(d, dict) and d.get("k") == "f" and isinstance(strip_cast(d.get("b")), dict) and \
+            strip_cast(d["b"]).get("k") == "p" and strip_cast(d["b"]).get("i") == 0 else None
+    targets, books = set(), set()
+    for fn in fb.find(pred=lambda f: f.record == EXCL and f.name == "release" and f.has_cfg()):
+        for _, ev in fn.all_events():
+            if ev["e"] == "call" and ev.get("name") == "deallocate" and this_field(ev.get("this")):
+                targets.add(this_field(ev["this"]))
+            if ev["e"] == "asg" and this_field(ev.get("lhs")):
+                books.add(this_field(ev["lhs"]))
+    books -= targets
+    n4b = 0
+    for fn in fb.find(pred=lambda f: f.record == EXCL and f.kind in ("move_assign", "move_ctor") and f.has_cfg()):
+        ig = IG(fn, inline=nin)
+        live = ig.live_nodes()
+        exchanged, first_swap = set(), None
+        for n in ig.ev_nodes():
+            if n.id in live and n.ev["e"] == "call" and n.ev.get("name") == "swap" and len(n.ev.get("args", [])) == 2:
+                a, b = n.ev["args"]
+                for x, y in ((a, b), (b, a)):
+                    if this_field(x) and this_field(x) == src_field(y):
+                        exchanged.add(this_field(x))
+                        first_swap = first_swap or n
+        if not (exchanged & books):
+            continue        # e.g. the move constructor, which delegates to the assignment
+        n4b += 1
+        rel = [n for n in L.call_nodes(ig, name="release", live=live) if strip_cast(n.ev.get("this")).get("k") in ("this", "u")]
+        released_first = bool(rel) and first_swap is not None and ig.dominated_by(first_swap, rel)
+        missing = sorted(targets - exchanged)
+        ctx.ob("C06.R4b", L.short(fn), bool(targets) and (not missing or released_first), fn.loc,
+               "the blocks this resource held are exchanged into the source (%s) but %s - which release() returns them to - "
+               "is not: the source will hand them to an allocator that never issued them, and the one that did never gets them back" % (
+                   ", ".join(sorted(exchanged & books))[:80], ", ".join(missing)), site="%s@allocators-travel-with-blocks" % fn.name)
+    ctx.floor("C06.R4b", n4b, 1, "move members of the exclusive resource that exchange its block bookkeeping")
+
     # ---------------------------------------------------------------- R5 capacities
     recs = fb.records()
     caps = {}
